@@ -467,3 +467,38 @@ def deep_ref(table, fn_path):
         except (OSError, ValueError):
             _DEEP = {}
     return _DEEP.get(table, {}).get(fn_path, {})
+
+
+def closure_siblings(prog, path):
+    """the closures created by the same function at the same nesting level as the closure `path` (closure numbers are positions in
+    the source: adding or removing an unrelated closure renumbers them, so a table that names `f::{closure#2}` means `the closure of
+    f that contains these checks`)"""
+    m = _re.match(r"^(.*)::\{closure#\d+\}$", path)
+    if not m:
+        return []
+    parent = m.group(1)
+    cn = path.lstrip("<&").split("::")[0]
+    if cn not in prog.crates:
+        return []
+    pat = _re.compile(_re.escape(parent) + r"::\{closure#\d+\}$")
+    return [g for g in prog.crate(cn).fn_list if pat.match(g.path)]
+
+
+def resolve_closure_entry(prog, path, wanted, table):
+    """the function a table row named `path` refers to: the function of that path, or - for a closure - the sibling closure that
+    satisfies most of the row's conditions (the named one on ties)"""
+    f = prog.fn(path)
+    if f is None:
+        cn = path.lstrip("<&").split("::")[0]
+        c2 = [x for x in prog.crate(cn).fn_list if x.path == path] if cn in prog.crates else []
+        f = c2[0] if c2 else None
+    sib = closure_siblings(prog, path)
+    if len(sib) <= (1 if f is not None else 0):
+        return f
+    best, best_n = f, -1
+    for g in ([f] if f is not None else []) + [x for x in sib if x is not f]:
+        got = match_table(checks_deep(prog, g), wanted, deep_ref(table, path))
+        n = sum(1 for cnd, k in wanted if len(got.get(cnd, [])) >= k)
+        if n > best_n:
+            best, best_n = g, n
+    return best
